@@ -72,6 +72,14 @@ Definition next_action (n : node) : N :=
 (* ---- leader-side records ---- *)
 Record roundst := mkRound { rd_ordinal : N; rd_last : N; rd_finished : bool }.
 
+(* leaderUpdate waiting in a replication's leaderUpdateCh *)
+Record pendupd := mkPend {
+  pu_viewprev : N;        (* u.log.PrevIndex(); 2^64-1 stands for the nil view *)
+  pu_last : N;            (* u.log.LastIndex() *)
+  pu_commit : N;
+  pu_voter : bool         (* u.config != nil (a pointer to the leader's Latest, read when consumed) *)
+}.
+
 Record replst := mkRepl {
   rp_id : N;
   (* replicationStatus: owned by the leader goroutine *)
@@ -87,7 +95,8 @@ Record replst := mkRepl {
   rp_ldrlast : N;
   rp_viewprev : N;
   rp_gvoter : bool;
-  rp_commit : N           (* req.ldrCommitIndex carried by the goroutine's appendReq *)
+  rp_commit : N;          (* ldrCommitIndex of the appendReq this replication reuses *)
+  rp_pending : option pendupd   (* content of leaderUpdateCh (capacity 1, newest wins) *)
 }.
 
 Record newent := mkNewEnt { ne_index : N; ne_typ : N; ne_tid : N }.
@@ -104,7 +113,8 @@ Record ldrst := mkLdr {
   ld_tr_target : N;
   ld_tr_resp : bool;      (* transfer.respCh != nil *)
   ld_tr_newterm : bool;   (* transfer.newTermTimer.active *)
-  ld_waitstable : N;      (* len(waitStable) *)
+  ld_tr_tid : N;          (* id of the transfer task *)
+  ld_waitstable : list N; (* ids of the waitForStableConfig tasks *)
   ld_removelte : N
 }.
 
@@ -148,10 +158,12 @@ Record nstate := mkNode_ {
    st_timer; st_snapbusy; st_closed; st_fsmidx; st_fsmterm; st_aborted; st_votesneeded; st_cndtransfer; st_ldr>.
 #[export] Instance eta_ldrst : Settable _ := settable! mkLdr
   <ld_present; ld_voter; ld_numvoters; ld_start; ld_queue; ld_repls; ld_tr_active; ld_tr_term; ld_tr_target;
-   ld_tr_resp; ld_tr_newterm; ld_waitstable; ld_removelte>.
+   ld_tr_resp; ld_tr_newterm; ld_tr_tid; ld_waitstable; ld_removelte>.
 #[export] Instance eta_replst : Settable _ := settable! mkRepl
   <rp_id; rp_match; rp_nocontact; rp_voter; rp_action; rp_round; rp_removelte; rp_gmatch; rp_next; rp_ldrlast;
-   rp_viewprev; rp_gvoter; rp_commit>.
+   rp_viewprev; rp_gvoter; rp_commit; rp_pending>.
+
+Definition nil_view : N := 18446744073709551615.
 
 Definition set_term_vote (s : nstate) (t v : N) : nstate := s <| st_term := t |> <| st_voted := v |>.
 Definition set_role (s : nstate) (r : N) : nstate := s <| st_role := r |>.
